@@ -479,6 +479,18 @@ private:
             sink_.push_back(jsoncons::ubjson::ubjson_type::int64_type);
             binary::native_to_big(static_cast<int64_t>(val),std::back_inserter(sink_));
         }
+        else
+        {
+            // UBJSON has no unsigned 64-bit type: write the value as a high-precision number
+            std::string s;
+            jsoncons::from_integer(val, s);
+            sink_.push_back(jsoncons::ubjson::ubjson_type::high_precision_number_type);
+            put_length(s.length());
+            for (auto c : s)
+            {
+                sink_.push_back(static_cast<uint8_t>(c));
+            }
+        }
         end_value();
         JSONCONS_VISITOR_RETURN;
     }
